@@ -309,7 +309,13 @@ fn gen_q(rng: &mut Rng) -> Case<Q> {
     let ab = angle_sum(&a, &b);
     let (axis, len) = rational_length_vec3(rng, 3);
     let n = [axis[0] / len, axis[1] / len, axis[2] / len];
-    let k = small_q_pos(rng, 7, 5);
+    // "the axis need not be normalized": a quarter of the scale factors are extreme (the squared
+    // length of k*axis far below the element type's epsilon squared, or huge)
+    let k = match rng.below(8) {
+        0 => Q::frac(1, 1i64 << *rng.pick(&[30u32, 40, 53])),
+        1 => Q::int(1i64 << *rng.pick(&[20u32, 30])),
+        _ => small_q_pos(rng, 7, 5),
+    };
     let axis_k = [axis[0] * k, axis[1] * k, axis[2] * k];
     let v = [small_q(rng, 6, 3), small_q(rng, 6, 3), small_q(rng, 6, 3)];
     let v2 = [small_q(rng, 6, 3), small_q(rng, 6, 3)];
@@ -472,7 +478,14 @@ fn gen_float<T: Fl + std::ops::Add<Output = T> + std::ops::Mul<Output = T>>(rng:
         }
         break [T::of(c[0]), T::of(c[1]), T::of(c[2])];
     };
-    let k = T::of(rng.f64_in(0.01, 100.0));
+    // a quarter of the scale factors are extreme: |k*axis| down to ~1e-14 (f32) / 1e-64 (f64), up to
+    // the reciprocal; squares stay far from underflow and overflow
+    let k = if rng.chance(1, 4) {
+        let span = if T::EPS > 1e-10 { 10.0 } else { 60.0 };
+        T::of(10f64.powf(rng.f64_in(-span, span)))
+    } else {
+        T::of(rng.f64_in(0.01, 100.0))
+    };
     let axis_k = [axis[0] * k, axis[1] * k, axis[2] * k];
     let v = [T::of(rng.f64_in(-3.0, 3.0)), T::of(rng.f64_in(-3.0, 3.0)), T::of(rng.f64_in(-3.0, 3.0))];
     let v2 = [T::of(rng.f64_in(-3.0, 3.0)), T::of(rng.f64_in(-3.0, 3.0))];
@@ -984,7 +997,7 @@ fn main() {
         rep.push(s);
     }
     {
-        let proto = Sub::new("axis3d_exact_q", &format!("rotation_3d/rotated_3d/rotate_3d (Mat3/4, Quaternion) on exact rationals Q: registered angles as in xyz_exact_q; axis = rational-length vector (a column of a rational rotation times a rational length) so that vek's sqrt is exact, and k*axis with rational k>0 must give the same result. {}", COMMON_RULE))
+        let proto = Sub::new("axis3d_exact_q", &format!("rotation_3d/rotated_3d/rotate_3d (Mat3/4, Quaternion) on exact rationals Q: registered angles as in xyz_exact_q; axis = rational-length vector (a column of a rational rotation times a rational length) so that vek's sqrt is exact, and k*axis with rational k>0 (a quarter of them 2^-30..2^-53 or 2^20..2^30) must give the same result. {}", COMMON_RULE))
             .with_floor(n_exact / 2)
             .require(AXIS_APIS);
         let s = run_cases(&cfg, proto, n_exact, |s, i| {
@@ -1053,7 +1066,7 @@ fn main() {
         rep.push(s);
     }
     {
-        let proto = Sub::new("axis3d_float", &format!("rotation_3d on f32 and f64: angles as in xyz_float; axes with irrational norm, magnitudes 1e-4..1e4, some components exactly zero, zero axis excluded (outside the property's domain); k*axis with k in (0.01,100); unit axis of the reference computed in f64. {}", COMMON_RULE))
+        let proto = Sub::new("axis3d_float", &format!("rotation_3d on f32 and f64: angles as in xyz_float; axes with irrational norm, magnitudes 1e-4..1e4, some components exactly zero, zero axis excluded (outside the property's domain); k*axis with k in (0.01,100) and, for a quarter of the cases, k = 10^u with |u| up to 10 (f32) / 60 (f64); unit axis of the reference computed in f64. {}", COMMON_RULE))
             .with_floor(n_float / 2)
             .require(AXIS_APIS);
         let s = run_cases(&cfg, proto, n_float, |s, i| {
